@@ -457,7 +457,7 @@ func serializeSubpackets(to []byte, subpackets []outputSubpacket, hashed bool) {
 // KeyExpired returns whether sig is a self-signature of a key that has
 // expired.
 func (sig *Signature) KeyExpired(currentTime time.Time) bool {
-	if sig.KeyLifetimeSecs == nil {
+	if sig.KeyLifetimeSecs == nil || *sig.KeyLifetimeSecs == 0 {
 		return false
 	}
 	expiry := sig.CreationTime.Add(time.Duration(*sig.KeyLifetimeSecs) * time.Second)
